@@ -63,6 +63,10 @@ func c16Policy(k int) absnfs.PolicyOptions {
 	if k%3 == 2 {
 		p.AllowedIPs = []string{"10.0.0.1"}
 	}
+	if k%3 == 1 {
+		// an allow-list that admits the harness' address: the next policy may drop it again
+		p.AllowedIPs = []string{"10.0.0.2", "127.0.0.1"}
+	}
 	if k%4 == 3 {
 		p.EnableRateLimiting = true
 		rc := absnfs.DefaultRateLimiterConfig()
@@ -276,6 +280,9 @@ func runC16(tb stat.TB, c c16Case) {
 		return false, true
 	}
 
+	if c.ProbeConn {
+		probeCall() // the probes' connection exists, and has been served, before the first update of the case
+	}
 	for si, st := range c.Steps {
 		if stop {
 			break
@@ -286,6 +293,11 @@ func runC16(tb stat.TB, c c16Case) {
 		}
 		pol := c16Policy(version)
 		denied := len(pol.AllowedIPs) > 0
+		for _, a := range pol.AllowedIPs {
+			if a == "127.0.0.1" {
+				denied = false
+			}
+		}
 		switch st.Kind {
 		case "req":
 			if len(parked) >= 4 {
@@ -489,6 +501,18 @@ func runC16(tb stat.TB, c c16Case) {
 				viol("request-not-judged-under-policy-in-force", "after update P%d returned (allowed=%v) a request from 127.0.0.1 got reply_stat=%d", version, pol.AllowedIPs, rp.Stat)
 				break
 			}
+			if c.ProbeConn && !pol.EnableRateLimiting {
+				// the same question over the connection the probes have been using since before the update: a host that
+				// was served on it earlier is judged against the allow-list now in force like anybody else (policies
+				// with rate limiting are left out: a refusal by the limiter is a MSG_DENIED reply too)
+				if prp, perr := probeCall(); perr == nil {
+					if (prp.Stat == nfsx.MsgDenied) != denied {
+						viol("request-not-judged-under-policy-in-force", "after update P%d returned (allowed=%v) a request from 127.0.0.1 over a connection established before the update got reply_stat=%d", version, pol.AllowedIPs, prp.Stat)
+						break
+					}
+					stat.Label("fresh_request_over_established_connection_judged", 1)
+				}
+			}
 			if !gotDenied && rp.Stat == nfsx.MsgAccepted && rp.AcceptStat == 0 && len(rp.Body) >= 4 {
 				stw := (&nfsx.R{B: rp.Body}).U32()
 				if (stw == nfsx.ErrROFS) != pol.ReadOnly {
@@ -631,7 +655,7 @@ func runC16(tb stat.TB, c c16Case) {
 // c16Synth returns a small policy number without AllowedIPs / rate limiting and the wanted read-only flag.
 func c16Synth(ro bool) int {
 	for k := 12; ; k++ {
-		if k%3 != 2 && k%4 != 3 && ((k/2)%2 == 1) == ro {
+		if k%3 == 0 && k%4 != 3 && ((k/2)%2 == 1) == ro {
 			return k
 		}
 	}
